@@ -14,11 +14,14 @@ DESIGN_REF = "DESIGN.md section 5, C18"
 CASE_TIMEOUT = 180.0
 RULE = (
     "Generated power-law / mass-action networks (1-3 variables, influx, conversions and degradations with rate "
-    "k*x^n, orders in {0.5, 1, 2, 3} given as parameters) with positive states and parameters x to_scan subsets x "
+    "k*x^n, orders in {0.5, 1, 2, 3} - and negative orders for the elasticities - given as parameters) with positive states and parameters x to_scan subsets x "
     "variables supplied or not x normalized in {True, False} x displacement in {1e-2, 1e-3, 1e-4} x parallel in {False, "
     "True}. Oracle: analytic partial derivatives (kinetic orders; n*v/x unscaled; n*ln x for an order parameter) and "
     "-(N dv/dx)^-1 N dv/dp at the analytically polished steady state; snapshots of parameter values and initial values "
-    "before/after every routine must be identical; sequential and parallel response coefficients must agree. "
+    "before/after every routine must be identical; sequential and parallel response coefficients must agree. A third "
+    "class drives the Monte-Carlo wrappers (mc.variable_elasticities / parameter_elasticities / response_coefficients) "
+    "with 2-3 labelled parameter rows: each block must equal the analytic values for its row (elasticities) or the plain "
+    "routine on a model carrying that row (response coefficients), blocks keyed by the rows' labels, caller's model untouched. "
     "Non-trivial: >=2 reactions, at least one kinetic order != 1, and (for response coefficients) a parameter that moves "
     ">=2 steady-state concentrations; distinct by (structure, orders, flags)."
 )
@@ -84,20 +87,153 @@ def _case(draw, kinds=("elasticities", "response")):
     return case
 
 
+@st.composite
+def _mc_case(draw, wrapper=None):
+    net = draw(_net())
+    pn = mm.param_names(net)
+    cols = draw(st.lists(st.sampled_from(pn), min_size=1, max_size=3, unique=True))
+    labels = draw(st.sampled_from([[0, 1], [5, 2], [7, 3, 1]]))
+    rows = [{c: (draw(_k) if c.startswith("k_") else draw(_order)) for c in cols} for _ in labels]
+    wrapper = wrapper or draw(st.sampled_from(["variable_elasticities", "parameter_elasticities", "response_coefficients"]))
+    return {
+        "kind": "mc",
+        "wrapper": wrapper,
+        "net": net,
+        "mc_labels": labels,
+        "mc_rows": rows,
+        "normalized": draw(st.booleans()),
+        "displacement": draw(st.sampled_from([1e-2, 1e-3, 1e-4])),
+        "variables": draw(st.one_of(st.none(), st.lists(st.sampled_from([0.4, 0.9, 1.7, 2.6]), min_size=3, max_size=3))),
+        "to_scan": draw(st.lists(st.sampled_from(pn), min_size=1, max_size=2, unique=True)),
+    }
+
+
 def strategy(tier: str):
     return _case()
 
 
 def strategies(tier: str):
     f = 1 if tier == "quick" else 5
-    return [("elasticities", _case(kinds=("elasticities",)), 200 * f), ("response", _case(kinds=("response",)), 60 * f)]
+    return [("elasticities", _case(kinds=("elasticities",)), 200 * f), ("response", _case(kinds=("response",)), 60 * f), *[(f"mc.{w}", _mc_case(w), 14 * f) for w in ("variable_elasticities", "parameter_elasticities", "response_coefficients")]]
 
 
 def _snap(m):
     return dict(m.get_parameter_values()), dict(m.get_initial_conditions())
 
 
+def _row_net(net: dict, row: dict) -> dict:
+    rx = []
+    for r in net["reactions"]:
+        r = dict(r)
+        if f"k_{r['name']}" in row:
+            r["k"] = row[f"k_{r['name']}"]
+        if f"n_{r['name']}" in row:
+            r["order"] = row[f"n_{r['name']}"]
+        rx.append(r)
+    return {**net, "reactions": rx}
+
+
+def _examine_mc(case: dict, ctx) -> Outcome:
+    """The Monte-Carlo wrappers: one block of coefficients per parameter row, each equal to the analytic values for that row's
+    parameters and to the plain routine run on a model carrying that row; the caller's model untouched."""
+    import pandas as pd
+    from mxlpy import mc, mca
+
+    out = Outcome()
+    net = case["net"]
+    d, norm, w = case["displacement"], case["normalized"], case["wrapper"]
+    vn = [f"x{i}" for i in range(net["n"])]
+    rn = [r["name"] for r in net["reactions"]]
+    labels, rows = case["mc_labels"], case["mc_rows"]
+    mcs = pd.DataFrame(rows, index=labels)
+    x = dict(zip(vn, case["variables"][: net["n"]])) if case["variables"] else None
+    if w == "parameter_elasticities" and x is None:
+        x = dict(zip(vn, net["x0"]))  # this wrapper requires the state
+    scan = list(case["to_scan"])
+    out.classes = ["kind:mc", f"mc:{w}", "normalized" if norm else "unscaled", "variables_supplied" if case["variables"] else "default_state"]
+    m = mm.build(net)
+    before = _snap(m)
+    kw = {"mc_to_scan": mcs, "normalized": norm, "displacement": d, "max_workers": 2}
+    try:
+        if w == "variable_elasticities":
+            res = mc.variable_elasticities(m, variables=dict(x) if x else None, **kw)
+        elif w == "parameter_elasticities":
+            res = mc.parameter_elasticities(m, to_scan=scan, variables=dict(x), **kw)
+        else:
+            res = mc.response_coefficients(m, to_scan=scan, variables=dict(x) if x else None, disable_tqdm=True, **kw)
+    except Exception as e:  # noqa: BLE001
+        out.bad(f"mc.{w}:raises:{type(e).__name__}", error=repr(e)[:200])
+        return out
+    after = _snap(m)
+    if after != before:
+        what = "initial-values" if after[1] != before[1] else "parameter-values"
+        out.bad(f"mc.{w}:model-modified:{what}:{'variables-supplied' if case['variables'] else 'default-state'}", before=before[1] if what == "initial-values" else before[0], after=after[1] if what == "initial-values" else after[0])
+    frames = {"variables": res.variables, "fluxes": res.fluxes} if w == "response_coefficients" else {"table": res}
+    for name, df in frames.items():
+        got_labels = list(dict.fromkeys(df.index.get_level_values(0)))
+        if got_labels != labels:
+            out.bad(f"mc.{w}:row-labels", got=got_labels, want=labels, table=name)
+            return out
+    compared = 0
+    for lab, row in zip(labels, rows):
+        rnet = _row_net(net, row)
+        m_row = mm.build(rnet)
+        pvals = dict(m_row.get_parameter_values())
+        if w in ("variable_elasticities", "parameter_elasticities"):
+            xv = np.array([x[v] for v in vn]) if x else np.array(net["x0"], dtype=float)
+            v = mm.rates(rnet, xv)
+            tol = lambda ref: (60 * d * d + 2e-7 / d) * (1.0 + abs(ref))  # noqa: E731
+            blk = res.loc[lab]
+            if w == "variable_elasticities":
+                J = mm.dv_dx(rnet, xv)
+                for j, r in enumerate(rn):
+                    for i, var in enumerate(vn):
+                        want = J[j, i] * (xv[i] / v[j] if norm else 1.0)
+                        got = float(blk.loc[r, var])
+                        if not abs(got - want) <= tol(want):
+                            out.bad(f"mc.variable_elasticities:value:{'normalized' if norm else 'unscaled'}", row=lab, reaction=r, variable=var, got=got, want=want, row_values=row)
+                            return out
+            else:
+                Jp, names = mm.dv_dp(rnet, xv)
+                if sorted(blk.columns) != sorted(scan):
+                    out.bad("mc.parameter_elasticities:columns", got=list(blk.columns), want=scan)
+                    return out
+                for j, r in enumerate(rn):
+                    for p in scan:
+                        want = Jp[j, names.index(p)] * (pvals[p] / v[j] if norm else 1.0)
+                        got = float(blk.loc[r, p])
+                        if not abs(got - want) <= tol(want):
+                            out.bad(f"mc.parameter_elasticities:value:{'normalized' if norm else 'unscaled'}", row=lab, reaction=r, parameter=p, got=got, want=want, row_values=row)
+                            return out
+            compared += 1
+            continue
+        # response coefficients: differential against the plain routine on a model carrying the row (C18's other class
+        # compares that routine with the analytic sensitivities)
+        try:
+            ref = mca.response_coefficients(m_row, to_scan=scan, variables=dict(x) if x else None, normalized=norm, displacement=d, parallel=False, disable_tqdm=True)
+        except Exception:  # noqa: BLE001
+            continue
+        for name, a, b in [("concentration", res.variables.loc[lab], ref.variables), ("flux", res.fluxes.loc[lab], ref.fluxes)]:
+            # (mc tables have the scanned parameters in their rows)
+            a2 = a if list(a.index) == list(b.index) else a.T
+            try:
+                av, bv = a2.loc[b.index, b.columns].to_numpy(float), b.to_numpy(float)
+            except KeyError:
+                out.bad(f"mc.response_coefficients:{name}:labels", got=[list(a.index), list(a.columns)], want=[list(b.index), list(b.columns)])
+                return out
+            if not np.allclose(av, bv, rtol=1e-6, atol=1e-9, equal_nan=True):
+                out.bad(f"mc.response_coefficients:{name}:differs-from-plain-routine-on-row-model", row=lab, got=av.tolist(), want=bv.tolist(), row_values=row)
+                return out
+        compared += 1
+    if compared >= 2 and len(rn) >= 2:
+        out.nontrivial = ["mc", w, net["n"], [(r["name"], r["order"]) for r in net["reactions"]], labels, sorted(rows[0]), norm, d, case["variables"] is not None]
+        out.sample = {"wrapper": w, "rows": rows, "labels": labels}
+    return out
+
+
 def examine(case: dict, ctx) -> Outcome:
+    if case["kind"] == "mc":
+        return _examine_mc(case, ctx)
     from mxlpy import mca
 
     out = Outcome()
@@ -237,7 +373,7 @@ def examine(case: dict, ctx) -> Outcome:
 
 def floors(ctx) -> list[str]:
     c = []
-    for k in ["kind:elasticities", "kind:response", "normalized", "unscaled", "parallel", "variables_supplied", "negative_parameter_value"]:
+    for k in ["kind:elasticities", "kind:response", "kind:mc", "mc:variable_elasticities", "mc:parameter_elasticities", "mc:response_coefficients", "normalized", "unscaled", "parallel", "variables_supplied", "negative_parameter_value"]:
         if ctx.classes.get(k, 0) < 3:
             c.append(f"class {k} only {ctx.classes.get(k, 0)}")
     return c
